@@ -163,11 +163,28 @@ func (t *Transpiler) setAggregateFields(selectStatement *influxql.SelectStatemen
 func (t *Transpiler) transpileAggregateExpr(a *parser.AggregateExpr) (influxql.Node, error) {
 	// Recursively transpile sub expression
 	t.dropMetric = true
+	if fn, ok := aggregateFns[a.Op]; ok && fn.keepMetric {
+		// topk / bottomk return elements of their operand: the metric name is kept exactly when
+		// the operand keeps it (topk(1, m) does, topk(1, abs(m)) and topk(1, rate(m[1m])) do not)
+		t.dropMetric = false
+		expr, err := t.transpileExpr(a.Expr)
+		if err != nil {
+			return nil, errno.NewError(errno.TranspileAggFail, err.Error())
+		}
+		operandDropsMetric := t.dropMetric
+		node, err := t.transpileAggregateOf(a, expr)
+		t.dropMetric = operandDropsMetric
+		return node, err
+	}
 	expr, err := t.transpileExpr(a.Expr)
 	if err != nil {
 		return nil, errno.NewError(errno.TranspileAggFail, err.Error())
 	}
+	return t.transpileAggregateOf(a, expr)
+}
 
+// transpileAggregateOf builds the aggregation over the transpiled operand
+func (t *Transpiler) transpileAggregateOf(a *parser.AggregateExpr, expr influxql.Node) (influxql.Node, error) {
 	// If the aggregate expression contains the "without" and it is true, reset the dropMetric flag to true
 	// Otherwise, if the "__name__" field is found in grouping fields, set the dropMetric flag to false
 	if a.Without {
@@ -265,6 +282,11 @@ func (t *Transpiler) canPushDownAggWithFunction(agg *parser.AggregateExpr, state
 	if aggFn.name == "mean" {
 		return false
 	}
+	// top() / bottom() take a field: top(irate_prom(value), 3) is rejected by the compiler
+	// ("expected first argument to be a field in top()") and the query answered empty.
+	if aggFn.keepAuxLabel {
+		return false
+	}
 	call, ok := field.Expr.(*influxql.Call)
 	if !ok {
 		return false
@@ -358,15 +380,28 @@ func SetSelectTag2Aux(stmt *influxql.SelectStatement) {
 		if !ok {
 			continue
 		}
-		if len(s.Statement.Dimensions) != 1 || len(s.Statement.Fields) == 0 {
-			continue
-		}
-		if _, ok = s.Statement.Dimensions[0].Expr.(*influxql.Wildcard); !ok {
-			continue
-		}
-		if _, ok = s.Statement.Fields[0].Expr.(*influxql.BinaryExpr); !ok {
+		if len(s.Statement.Fields) == 0 || !groupByAllTags(s.Statement.Dimensions) {
 			continue
 		}
 		s.Statement.SelectTagToAux = true
 	}
+}
+
+// groupByAllTags reports whether the dimensions are `*` alone or `*` and the time(step) of a
+// range query.
+func groupByAllTags(dims influxql.Dimensions) bool {
+	wildcard := false
+	for _, d := range dims {
+		switch e := d.Expr.(type) {
+		case *influxql.Wildcard:
+			wildcard = true
+		case *influxql.Call:
+			if e.Name != "time" {
+				return false
+			}
+		default:
+			return false
+		}
+	}
+	return wildcard
 }
